@@ -372,3 +372,51 @@ case("c14-sgn0-fqp-zero-update", "C14", OFE, "            zero = zero and zero_i
 case("c14-sgn0-fq", "C14", OFE, "        return self.n % 2\n", "        return (self.n * 2) // self.field_modulus\n", rule="C14.R2")
 case("c08-twin-mul-comm", ["C08", "C14"], OFE, "        return type(self)((self.n * on) % self.field_modulus)", "        return type(self)((on * self.n) % self.field_modulus)", expect="silent")
 case("c08-twin-pow-parity-form", "C08", OFE, "            if other & 1:\n                o = o * t\n            other >>= 1\n            t = t * t\n        return o\n\n    def __eq__", "            if other % 2 == 1:\n                o = t * o\n            other = other // 2\n            t = t * t\n        return o\n\n    def __eq__", expect="silent")
+
+# ---------------------------------------------------------------- C11
+case("c11-g1-x-gt-q", "C11", PC, "    if x >= q:\n        raise ValueError(f\"Point value", "    if x > q:\n        raise ValueError(f\"Point value", rule="C11.R1")
+case("c11-g1-no-cflag", "C11", PC,
+     "    c_flag, b_flag, a_flag = get_flags(z)\n\n    # c_flag == 1 indicates the compressed form\n    # MSB should be 1\n    if not c_flag:\n        raise ValueError(\"c_flag should be 1\")\n\n    is_inf_pt = is_point_at_infinity(z)\n",
+     "    c_flag, b_flag, a_flag = get_flags(z)\n\n    is_inf_pt = is_point_at_infinity(z)\n", rule="C11.R1")
+case("c11-g1-inf-aflag-unchecked", "C11", PC,
+     "        if a_flag:\n            raise ValueError(\"a point at infinity should have a_flag == 0\")\n        return Z1", "        return Z1", rule="C11.R1")
+case("c11-g1-sign-inverted", "C11", PC, "    if (y * 2) // q != int(a_flag):\n        y = q - y\n    return (FQ(x)",
+     "    if (y * 2) // q == int(a_flag):\n        y = q - y\n    return (FQ(x)", rule="C11.R1")
+case("c11-g1-sign-gt-half", "C11", PC, "    if (y * 2) // q != int(a_flag):\n        y = q - y\n    return (FQ(x)",
+     "    if (y > q // 2) != a_flag and y * 2 != q - 1:\n        y = q - y\n    return (FQ(x)", rule="C11.R1")
+case("c11-g1-no-root-check", "C11", PC,
+     "    if pow(y, 2, q) != (x**3 + b.n) % q:\n        raise ValueError(\"The given point is not on G1: y**2 = x**3 + b\")\n", "", rule="C11.R1")
+case("c11-g1-wrong-exponent", "C11", PC, "    y = pow((x**3 + b.n) % q, (q + 1) // 4, q)", "    y = pow((x**3 + b.n) % q, (q - 1) // 4, q)", rule="C11.R1")
+case("c11-g1-mask-382", "C11", PC, "    x = z % POW_2_381\n    if x >= q:", "    x = z % POW_2_382\n    if x >= q:", rule="C11.R1")
+case("c11-flags-bflag-bit", "C11", PC, "    b_flag = bool((z >> 382) & 1)", "    b_flag = bool((z >> 381) & 1)", rule="C11.R1")
+case("c11-g2-z2-unchecked", "C11", PC,
+     "    if z2 >= q:\n        raise ValueError(f\"z2 point value should be less than field modulus. Got {z2}\")\n", "", rule="C11.R1")
+case("c11-g2-swap-re-im", "C11", PC, "    x = FQ2([x2, x1])", "    x = FQ2([x1, x2])", rule="C11.R1")
+case("c11-g2-sign-only-im", "C11", PC,
+     "    if (y_im > 0 and (int(y_im) * 2) // q != int(a_flag1)) or (\n        y_im == 0 and (int(y_re) * 2) // q != int(a_flag1)\n    ):",
+     "    if (int(y_im) * 2) // q != int(a_flag1):", rule="C11.R1")
+case("c11-g2-inf-z2-ignored", "C11", PC, "    return (z1 % POW_2_381 == 0) and (z2 is None or z2 == 0)", "    return z1 % POW_2_381 == 0", rule="C11.R1")
+case("c11-g2-no-oncurve-no-sqrt-arg", "C11", PC, "    y = modular_squareroot_in_FQ2(x**3 + b2)", "    y = modular_squareroot_in_FQ2(x**3 + b)", rule="C11.R1")
+case("c11-enc-g2-sign-from-re", "C11", PC,
+     "    a_flag1 = (int(y_im) * 2) // q if y_im > 0 else (int(y_re) * 2) // q",
+     "    a_flag1 = (int(y_re) * 2) // q if y_re > 0 else (int(y_im) * 2) // q", rule="C11.R3")
+case("c11-enc-g1-flag-bit", "C11", PC, "        return G1Compressed(x.n + a_flag * POW_2_381 + POW_2_383)",
+     "        return G1Compressed(x.n + a_flag * POW_2_382 + POW_2_383)", rule="C11.R3")
+case("c11-enc-g1-inf-no-b", "C11", PC, "        return G1Compressed(POW_2_383 + POW_2_382)", "        return G1Compressed(POW_2_383)", rule="C11.R3")
+case("c11-enc-g2-swap-words", "C11", PC, "    z2 = x_re\n", "    z2 = x_im\n", rule="C11.R3")
+case("c11-sqrt-skip-root", "C11", PC, "    if check in EIGHTH_ROOTS_OF_UNITY[::2]:", "    if check in EIGHTH_ROOTS_OF_UNITY[:6:2]:", rule="C11.R2")
+case("c11-sqrt-wrong-divisor", "C11", PC,
+     "            / EIGHTH_ROOTS_OF_UNITY[EIGHTH_ROOTS_OF_UNITY.index(check) // 2]",
+     "            / EIGHTH_ROOTS_OF_UNITY[EIGHTH_ROOTS_OF_UNITY.index(check)]", rule="C11.R2")
+case("c11-sqrt-exponent", "C11", PC, "    candidate_squareroot = value ** ((FQ2_ORDER + 8) // 16)", "    candidate_squareroot = value ** ((FQ2_ORDER + 8) // 8)", rule="C11.R2")
+case("c11-bytes-sig-split", "C11", G2P, "os2ip(signature[:48]), os2ip(signature[48:])", "os2ip(signature[:48]), os2ip(signature[47:])", rule="C11.R3")
+case("c11-bytes-pk-len", "C11", G2P, "    return BLSPubkey(i2osp(z, 48))", "    return BLSPubkey(i2osp(z, 49))", rule="C11.R3")
+# silent twins
+case("c11-twin-flags-mask", "C11", PC, "    x = z % POW_2_381\n    if x >= q:", "    x = z & (POW_2_381 - 1)\n    if not x < q:", expect="silent")
+case("c11-twin-sq-mul", "C11", PC, "    if pow(y, 2, q) != (x**3 + b.n) % q:", "    if (y * y) % q != (x**3 + b.n) % q:", expect="silent")
+case("c11-twin-g2-neg", "C11", PC, "        y = FQ2((y * -1).coeffs)", "        y = -y", expect="silent")
+case("c11-twin-msgs", "C11", PC, "        raise ValueError(\"c_flag should be 1\")", "        raise ValueError(\"compression flag missing\")", count=2, expect="silent")
+case("c11-twin-enc-shift", "C11", PC, "        return G1Compressed(x.n + a_flag * POW_2_381 + POW_2_383)",
+     "        return G1Compressed(POW_2_383 + (a_flag << 381) + x.n)", expect="silent")
+case("c11-twin-exponent-floor", "C11", PC, "    y = pow((x**3 + b.n) % q, (q + 1) // 4, q)", "    y = pow((x**3 + b.n) % q, (q + 3) // 4, q)", expect="silent")
+case("c11-twin-sqrt-arg-assoc", "C11", PC, "    y = modular_squareroot_in_FQ2(x**3 + b2)", "    y = modular_squareroot_in_FQ2(b2 + x * x * x)", expect="silent")
